@@ -39,7 +39,7 @@ func init() {
 
 var c03ExeTokens = []string{"{", "}", "(", ")", "[", "]", ":", "!", "=", "@", "$", "...", ",", "#c\n", "\"", "\n",
 	"a", "kid", "on", "query", "mutation", "subscription", "fragment", "__typename", "__type", "__schema",
-	"1", "-1.5", "\"s\"", "\"\"\"b\"\"\"", "true", "null", "RED", "$v", "@skip(if:true)", "@include(if:$v)", "echo", "F", "A"}
+	"1", "-1.5", "\"s\"", "\"\"\"b\"\"\"", "true", "null", "RED", "$v", "@skip(if:true)", "@include(if:$v)", "echo", "F", "A", "ghost"}
 
 var c03SDLTokens = []string{"type", "interface", "union", "enum", "input", "scalar", "directive", "extend", "schema", "implements", "&", "|", "=", "@", "on",
 	"{", "}", "(", ")", "[", "]", ":", "!", ",", "\"d\"", "\"\"\"d\"\"\"", "Query", "A", "x", "Int", "OBJECT", "query", "1", "\"s\"", "#c\n", "@deprecated"}
@@ -381,7 +381,7 @@ func runC03(c *core.Ctx) {
 	exeCorpus = append(exeCorpus,
 		"{ ...F } fragment F on Query { ...F }", "{ ...F } fragment F on Query { a { ...G } } fragment G on A { kid { ...F } }",
 		"query($a: ){a}", "{a{kid{kid{kid{kid{kid{kid{kid{kid{kid{kid{kid{kid{kid{kid{kid{kid{id}}}}}}}}}}}}}}}}}}",
-		"{echo} {tri(a:null)}", "{ pick(i: $nope, in: {min: [1]}, ids: 1, ss: {a: 1}) }", "subscription { i }", "{__type{name}}", "{__type(name: 1){name}}", "{__schema{types{fields{args{type{ofType{ofType{ofType{ofType{name}}}}}}}}}}")
+		"{ as { ghost id } ghost a { ghost } }", "{echo} {tri(a:null)}", "{ pick(i: $nope, in: {min: [1]}, ids: 1, ss: {a: 1}) }", "subscription { i }", "{__type{name}}", "{__type(name: 1){name}}", "{__schema{types{fields{args{type{ofType{ofType{ofType{ofType{name}}}}}}}}}}")
 	var sdlCorpus []string
 	for _, b := range sgen.Bases() {
 		sdlCorpus = append(sdlCorpus, b.SDL())
